@@ -87,129 +87,151 @@ pub fn generate<W: Write>(c: &mut Cases<W>, rng: &mut Rng, thorough: bool) {
         let srcs = gen_sources(rng);
         let total: usize = srcs.iter().map(|s| s.len()).sum();
         let fail_at = if i % 7 == 3 && total > 0 { Some(rng.below(total as u64) as usize) } else { None };
-        // each source through its own file configuration
-        let files: Vec<Vec<u8>> = srcs
-            .iter()
-            .map(|es| {
-                let cfg = gen_cfg(rng, i % 2 == 0, i % 9 == 0);
-                let cfg = FileCfg { levels: cfg.levels.min(4), ..cfg };
-                match write_file(&cfg, es) {
-                    WriteOutcome::File(f) => f,
-                    _ => panic!("source write failed"),
-                }
-            })
-            .collect();
-        c.begin("merge");
-        c.line(&format!("prop {}", c.prop.clone()));
-        for (si, es) in srcs.iter().enumerate() {
-            c.line(&format!("s {}", si));
-            for (k, v) in es {
-                c.line(&format!("e {} {}", hex(k), hex(v)));
-            }
-        }
-        c.line(&match fail_at { Some(j) => format!("mf failat {}", j), None => "mf concat -".to_string() });
-        // path 1: stream
-        let mf = LoggingConcat { calls: RefCell::new(Vec::new()), fail_at, sort: false };
-        let res = catch(|| -> Result<Vec<(Vec<u8>, Vec<u8>)>, (Vec<(Vec<u8>, Vec<u8>)>, String)> {
-            // the three equivalent ways of handing the sources to the builder, in turn
-            let cursors = || files.iter().map(|f| Reader::new(Cursor::new(&f[..])).unwrap().into_cursor().unwrap());
-            let b = match files.len() % 3 {
-                0 => {
-                    let mut b = Merger::builder(&mf);
-                    for cur in cursors() {
-                        b.push(cur);
-                    }
-                    b
-                }
-                1 => cursors().fold(Merger::builder(&mf), |b, cur| b.add(cur)),
-                _ => {
-                    // push the first sources, extend with the others (twice): positions keep counting
-                    let mut b = Merger::builder(&mf);
-                    let mut it = cursors();
-                    let n = files.len();
-                    for _ in 0..n / 3 {
-                        b.push(it.next().unwrap());
-                    }
-                    let mid: Vec<_> = (0..n / 3).filter_map(|_| it.next()).collect();
-                    b.extend(mid);
-                    b.extend(it);
-                    b
-                }
-            };
-            let mut out = Vec::new();
-            let mut it = match b.build().into_stream_merger_iter() {
-                Ok(it) => it,
-                Err(e) => return Err((out, err_class(&e))),
-            };
-            loop {
-                match it.next() {
-                    Ok(Some((k, v))) => out.push((k.to_vec(), v.to_vec())),
-                    Ok(None) => break,
-                    Err(e) => return Err((out, err_class(&e))),
-                }
-                if out.len() > 1_000_000 {
-                    return Err((out, "runaway".into()));
-                }
-            }
-            Ok(out)
-        });
-        let (out, end) = match res {
-            Ok(Ok(o)) => (o, "ok".to_string()),
-            Ok(Err((o, e))) => (o, format!("err {}", e)),
-            Err(_) => (Vec::new(), "panic".to_string()),
-        };
-        for (k, v) in &out {
-            c.line(&format!("out {} {}", hex(k), hex(v)));
-        }
-        c.line(&format!("outend {}", end));
-        for (k, vs) in mf.calls.borrow().iter() {
-            c.line(&format!("call {} {}", hex(k), vs.iter().map(|v| hex(v)).collect::<Vec<_>>().join(",")));
-        }
-        // path 2: into a writer
-        let mf2 = LoggingConcat { calls: RefCell::new(Vec::new()), fail_at, sort: false };
-        let wres = catch(|| -> Result<Vec<u8>, String> {
-            let mut b = Merger::builder(&mf2);
-            if files.len() % 2 == 0 {
-                let mut it = files.iter().map(|f| Reader::new(Cursor::new(&f[..])).unwrap().into_cursor().unwrap());
-                if let Some(first) = it.next() {
-                    b.push(first);
-                }
-                b.extend(it);
-            } else {
-                for f in &files {
-                    b.push(Reader::new(Cursor::new(&f[..])).unwrap().into_cursor().unwrap());
-                }
-            }
-            let mut w = Writer::builder().compression_type(CompressionType::None).memory();
-            b.build().write_into_stream_writer(&mut w).map_err(|e| err_class(&e))?;
-            w.into_inner().map_err(|e| io_class(&e))
-        });
-        match wres {
-            Ok(Ok(f)) => {
-                let r = Reader::new(Cursor::new(&f[..])).unwrap();
-                let mut cur = r.into_cursor().unwrap();
-                let mut items = Vec::new();
-                while let Some((k, v)) = cur.move_on_next().unwrap() {
-                    items.push((k.to_vec(), v.to_vec()));
-                }
-                let (n, h) = entries_hash(items.iter().map(|(k, v)| (&k[..], &v[..])));
-                c.line(&format!("wfile {} {:016x}", n, h));
-            }
-            Ok(Err(e)) => c.line(&format!("wfile err {}", e)),
-            Err(_) => c.line("wfile panic -"),
-        }
-        c.bump(&format!("sources{}", srcs.len()), 1);
-        c.bump("entries.total", total as u64);
-        if fail_at.is_some() {
-            c.bump("failing_mf", 1);
-        }
-        if srcs.len() >= 2 && total >= 2 {
-            let mut h = 0u64;
-            for f in &files {
-                h ^= fnv(f);
-            }
-            c.nontrivial(&h.to_le_bytes());
-        }
-        c.end();
+        emit_case(c, rng, i, &srcs, fail_at);
     }
+    // small-scope exhaustive: every choice of 3 (thorough: 4) sources among the 8 subsets of a 3-key
+    // universe (the empty key, a key and an extension of it), values tagged with their source
+    let universe: [Vec<u8>; 3] = [vec![], vec![7], vec![7, 0]];
+    let nsrc = if thorough { 4 } else { 3 };
+    let combos = 8usize.pow(nsrc as u32);
+    for code in 0..combos {
+        let mut x = code;
+        let mut srcs = Vec::new();
+        for si in 0..nsrc {
+            let mask = x % 8;
+            x /= 8;
+            let es: Vec<(Vec<u8>, Vec<u8>)> = (0..3).filter(|j| mask & (1 << j) != 0).map(|j| (universe[j].clone(), vec![b'A' + si as u8, j as u8])).collect();
+            srcs.push(es);
+        }
+        emit_case(c, rng, 2 * code, &srcs, None);
+    }
+    c.bump("exhaustive.combos", combos as u64);
+}
+
+fn emit_case<W: Write>(c: &mut Cases<W>, rng: &mut Rng, i: usize, srcs: &Vec<Vec<(Vec<u8>, Vec<u8>)>>, fail_at: Option<usize>) {
+    let total: usize = srcs.iter().map(|s| s.len()).sum();
+    // each source through its own file configuration
+    let files: Vec<Vec<u8>> = srcs
+        .iter()
+        .map(|es| {
+            let cfg = gen_cfg(rng, i % 2 == 0, i % 9 == 0);
+            let cfg = FileCfg { levels: cfg.levels.min(4), ..cfg };
+            match write_file(&cfg, es) {
+                WriteOutcome::File(f) => f,
+                _ => panic!("source write failed"),
+            }
+        })
+        .collect();
+    c.begin("merge");
+    c.line(&format!("prop {}", c.prop.clone()));
+    for (si, es) in srcs.iter().enumerate() {
+        c.line(&format!("s {}", si));
+        for (k, v) in es {
+            c.line(&format!("e {} {}", hex(k), hex(v)));
+        }
+    }
+    c.line(&match fail_at { Some(j) => format!("mf failat {}", j), None => "mf concat -".to_string() });
+    // path 1: stream
+    let mf = LoggingConcat { calls: RefCell::new(Vec::new()), fail_at, sort: false };
+    let res = catch(|| -> Result<Vec<(Vec<u8>, Vec<u8>)>, (Vec<(Vec<u8>, Vec<u8>)>, String)> {
+        // the three equivalent ways of handing the sources to the builder, in turn
+        let cursors = || files.iter().map(|f| Reader::new(Cursor::new(&f[..])).unwrap().into_cursor().unwrap());
+        let b = match files.len() % 3 {
+            0 => {
+                let mut b = Merger::builder(&mf);
+                for cur in cursors() {
+                    b.push(cur);
+                }
+                b
+            }
+            1 => cursors().fold(Merger::builder(&mf), |b, cur| b.add(cur)),
+            _ => {
+                // push the first sources, extend with the others (twice): positions keep counting
+                let mut b = Merger::builder(&mf);
+                let mut it = cursors();
+                let n = files.len();
+                for _ in 0..n / 3 {
+                    b.push(it.next().unwrap());
+                }
+                let mid: Vec<_> = (0..n / 3).filter_map(|_| it.next()).collect();
+                b.extend(mid);
+                b.extend(it);
+                b
+            }
+        };
+        let mut out = Vec::new();
+        let mut it = match b.build().into_stream_merger_iter() {
+            Ok(it) => it,
+            Err(e) => return Err((out, err_class(&e))),
+        };
+        loop {
+            match it.next() {
+                Ok(Some((k, v))) => out.push((k.to_vec(), v.to_vec())),
+                Ok(None) => break,
+                Err(e) => return Err((out, err_class(&e))),
+            }
+            if out.len() > 1_000_000 {
+                return Err((out, "runaway".into()));
+            }
+        }
+        Ok(out)
+    });
+    let (out, end) = match res {
+        Ok(Ok(o)) => (o, "ok".to_string()),
+        Ok(Err((o, e))) => (o, format!("err {}", e)),
+        Err(_) => (Vec::new(), "panic".to_string()),
+    };
+    for (k, v) in &out {
+        c.line(&format!("out {} {}", hex(k), hex(v)));
+    }
+    c.line(&format!("outend {}", end));
+    for (k, vs) in mf.calls.borrow().iter() {
+        c.line(&format!("call {} {}", hex(k), vs.iter().map(|v| hex(v)).collect::<Vec<_>>().join(",")));
+    }
+    // path 2: into a writer
+    let mf2 = LoggingConcat { calls: RefCell::new(Vec::new()), fail_at, sort: false };
+    let wres = catch(|| -> Result<Vec<u8>, String> {
+        let mut b = Merger::builder(&mf2);
+        if files.len() % 2 == 0 {
+            let mut it = files.iter().map(|f| Reader::new(Cursor::new(&f[..])).unwrap().into_cursor().unwrap());
+            if let Some(first) = it.next() {
+                b.push(first);
+            }
+            b.extend(it);
+        } else {
+            for f in &files {
+                b.push(Reader::new(Cursor::new(&f[..])).unwrap().into_cursor().unwrap());
+            }
+        }
+        let mut w = Writer::builder().compression_type(CompressionType::None).memory();
+        b.build().write_into_stream_writer(&mut w).map_err(|e| err_class(&e))?;
+        w.into_inner().map_err(|e| io_class(&e))
+    });
+    match wres {
+        Ok(Ok(f)) => {
+            let r = Reader::new(Cursor::new(&f[..])).unwrap();
+            let mut cur = r.into_cursor().unwrap();
+            let mut items = Vec::new();
+            while let Some((k, v)) = cur.move_on_next().unwrap() {
+                items.push((k.to_vec(), v.to_vec()));
+            }
+            let (n, h) = entries_hash(items.iter().map(|(k, v)| (&k[..], &v[..])));
+            c.line(&format!("wfile {} {:016x}", n, h));
+        }
+        Ok(Err(e)) => c.line(&format!("wfile err {}", e)),
+        Err(_) => c.line("wfile panic -"),
+    }
+    c.bump(&format!("sources{}", srcs.len()), 1);
+    c.bump("entries.total", total as u64);
+    if fail_at.is_some() {
+        c.bump("failing_mf", 1);
+    }
+    if srcs.len() >= 2 && total >= 2 {
+        let mut h = 0u64;
+        for f in &files {
+            h ^= fnv(f);
+        }
+        c.nontrivial(&h.to_le_bytes());
+    }
+    c.end();
 }
